@@ -187,7 +187,7 @@ def shared_trunk_linear_layer(S):
     S.ensure("grad-bias-shape", gb.val.rank == 1 and gb.val.shape[0].concrete() == o)
 
 
-@scenario("C09", [M + "trunknets.FCTrunkNet.__init__", M + "trunknets.FCTrunkNet.finalize", M + "trunknets.FCTrunkNet.forward", M + "trunknets.construct_FC_trunk_layers", M + "layers.TrunkLinear.forward", M + "layers.linear.forward"], configs=["hidden=(2,),neurons=4,d=2"], bounded="one hidden layer of width 2, 4 output neurons, output dimension 2, trunk variable x:1; numbers of functions and locations, weights and inputs symbolic")
+@scenario("C09", [M + "trunknets.FCTrunkNet.__init__", M + "trunknets.FCTrunkNet.finalize", M + "trunknets.FCTrunkNet.forward", M + "trunknets.construct_FC_trunk_layers", M + "layers.TrunkLinear.forward", M + "layers.linear.forward"], configs=["hidden=(2,),neurons=4,d=2", "hidden=(2,2),activations=[Tanh,Sigmoid],neurons=4,d=2"], bounded="one hidden layer of width 2 (resp. two hidden layers with DIFFERENT activations given as a list), 4 output neurons, output dimension 2, trunk variable x:1; numbers of functions and locations, weights and inputs symbolic")
 def fast_trunk_net_equals_the_plain_trunk_net_end_to_end(S):
     """FCTrunkNet(trunk_input_copied=True) (TrunkLinear layers evaluating the first copy only) and
     FCTrunkNet(trunk_input_copied=False) (plain nn.Linear layers) with THE SAME weights give the same feature tensor
@@ -197,14 +197,17 @@ def fast_trunk_net_equals_the_plain_trunk_net_end_to_end(S):
     B, n = S.int("B", 1), S.int("n", 1)
     xs = S.new(RN, "x", 1)
     us = S.new(RN, "u", 2)
-    fast = S.new(M + "trunknets.FCTrunkNet", xs, hidden=(2,), trunk_input_copied=True)
-    plain = S.new(M + "trunknets.FCTrunkNet", xs, hidden=(2,), trunk_input_copied=False)
+    deep = "activations" in S.cfg
+    nn = I.repo.externals["torch"].get("nn")
+    mk = lambda copied: S.new(M + "trunknets.FCTrunkNet", xs, hidden=(2, 2), activations=[S.I.instantiate(nn.get("Tanh"), [], {}), S.I.instantiate(nn.get("Sigmoid"), [], {})], trunk_input_copied=copied) if deep else S.new(M + "trunknets.FCTrunkNet", xs, hidden=(2,), trunk_input_copied=copied)
+    fast, plain = mk(True), mk(False)
     S.method(fast, "finalize", us, 4)
     S.method(plain, "finalize", us, 4)
     fl = [l for l in S.I.iterate(S.getattr(fast, "sequential")) if hasattr(l, "f") and "weight" in l.f]
     pl = [l for l in S.I.iterate(S.getattr(plain, "sequential")) if hasattr(l, "f") and "weight" in l.f]
-    S.ensure("two-affine-layers-each", len(fl) == 2 and len(pl) == 2)
-    if not (len(fl) == 2 and len(pl) == 2):
+    want_layers = 3 if deep else 2
+    S.ensure("same-number-of-affine-layers-as-hidden-layers-plus-one", len(fl) == want_layers and len(pl) == want_layers)
+    if not (len(fl) == want_layers and len(pl) == want_layers):
         return
     for a, b in zip(fl, pl):
         S.ensure("same-layer-shapes", [d.concrete() for d in a.f["weight"].val.shape] == [d.concrete() for d in b.f["weight"].val.shape])
